@@ -93,6 +93,18 @@ def value_chain(body, op):
     return seen
 
 
+def value_chain_of_local(body, local):
+    """locals a moved value passed through on its way into `local`"""
+    class _Op:
+        pass
+    class _Pl:
+        pass
+    o = _Op()
+    o.place = _Pl()
+    o.place.local = local
+    return value_chain(body, o)
+
+
 def base_local(body, local):
     """the named local a reference temp points into: follows `&x`, `&*x`, moves and deref / as_slice style calls backwards"""
     cur = local
@@ -315,14 +327,35 @@ def r2(ctx):
         return (canon(base) == DATA, norm(st), norm(en))
     K = lambda c: ((), c)
     SZ = lambda c: ((("size", 1),), c)
-    rule.check(span(p.local(aad_local)) == (True, K(0), K(16)), "Packet::decode: associated data starts with data[..IV_LENGTH]", "Packet::decode|aad-iv", "the associated data does not start with the received IV: %s" % init[:200], loc=pd.loc(tup.line))
-    ws = writes_into(pd, p, aad_local)
-    parts = [(bi, m, F(src[0]), span(src[0])) for bi, m, src, t in ws]
-    parts.sort(key=flow_key(pd, parts))
-    hdr = "core::slice::index::index(%s, std::ops::Range::Range{start: const(crate::packet::IV_LENGTH=16), end: AddWithOverflow(const(crate::packet::IV_LENGTH=16), const(crate::packet::STATIC_HEADER_LENGTH=23)).0})" % data
-    okk = len(parts) == 2 and all(m == "extend_from_slice" for _, m, _, _ in parts) and parts[0][3] == (True, K(16), K(39)) and parts[1][3] == (True, K(39), SZ(39))
+    # the parts, in order, as (block where the part is read, how, expression, the operand that names the buffer): either the initial value
+    # followed by appends (`iv.to_vec()`, `extend_from_slice` twice) or one concatenation (`[iv, &static_header, &auth_data].concat()`)
+    parts = []
+    init_e = canon(p.local(aad_local))
+    ws = []
+    if init_e[0] == "call" and re.search(r"(^|::)concat$", short(init_e[1])):
+        cc = [(bi, t) for bi, t in pd.calls() if callee_matches(t, r"::concat$") and t.dest.is_local() and (t.dest.local == aad_local or t.dest.local in value_chain_of_local(pd, aad_local))]
+        arr = None
+        if len(cc) == 1 and cc[0][1].args and cc[0][1].args[0].place is not None:
+            chain = value_chain(pd, cc[0][1].args[0]) + [base_local(pd, cc[0][1].args[0].place.local)]
+            for blk in pd.blocks:
+                for st in blk.stmts:
+                    if st.k == "a" and st.rv.k == "agg" and st.rv.j.get("ak") == "array" and st.lhs.is_local() and st.lhs.local in chain:
+                        arr = st
+        if arr is None:
+            raise AnchorError("Packet::decode: the parts of the concatenated associated data were not identified")
+        for o in arr.rv.ops:
+            parts.append((cc[0][0], "concat", p.operand(o), o))
+    else:
+        parts.append((None, "init", p.local(aad_local), None))
+        ws = writes_into(pd, p, aad_local)
+        later = [(bi, m, src[0], t.args[1]) for bi, m, src, t in ws]
+        later.sort(key=flow_key(pd, later))
+        parts += later
+    rule.check(bool(parts) and span(parts[0][2]) == (True, K(0), K(16)), "Packet::decode: associated data starts with data[..IV_LENGTH]", "Packet::decode|aad-iv",
+               "the associated data does not start with the received IV: %s" % init[:200], loc=pd.loc(tup.line))
+    okk = len(parts) == 3 and all(m in ("extend_from_slice", "concat") for _, m, _, _ in parts[1:]) and span(parts[1][2]) == (True, K(16), K(39)) and span(parts[2][2]) == (True, K(39), SZ(39))
     rule.check(okk, "Packet::decode: then exactly the static header bytes data[16..39] and the auth-data bytes data[39..39+n], nothing else", "Packet::decode|aad-parts",
-               "the associated data is not IV || static header || auth-data of the received datagram: %s" % [x[2][:160] for x in parts], loc=pd.loc(tup.line))
+               "the associated data is not IV || static header || auth-data of the received datagram: %s" % [F(x[2])[:160] for x in parts[1:]], loc=pd.loc(tup.line))
     # the two later parts are the very buffers the header cipher unmasked (the expressions above cannot tell data[16..39] from its unmasked copy)
     # the two buffers are identified by role, not by name: the first and the second buffer the header cipher is applied to
     ks = [(bi, t) for bi, t in pd.calls() if callee_matches(t, r"StreamCipher::apply_keystream$") and len(t.args) > 1 and t.args[1].place is not None]
@@ -330,9 +363,7 @@ def r2(ctx):
     if len(ks) != 2:
         raise AnchorError("Packet::decode: %d apply_keystream calls (2 confirmed by hand: static header, auth-data)" % len(ks))
     named = {"static_header": base_local(pd, ks[0][1].args[1].place.local), "auth_data": base_local(pd, ks[1][1].args[1].place.local)}
-    order = []
-    for bi, m, src, t in sorted(ws, key=lambda x: [y[0] for y in parts].index(x[0])):
-        order.append((bi, base_local(pd, t.args[1].place.local) if t.args[1].place is not None else None))
+    order = [(bi, base_local(pd, o.place.local) if o is not None and o.place is not None else None) for bi, m, _, o in parts[1:]]
     for (bi, l), nm in zip(order, ("static_header", "auth_data")):
         w = writes_into(pd, p, named[nm])
         kinds = sorted(set(m for _, m, _, _ in w))
